@@ -242,7 +242,7 @@ func (e *Engine) allQueriesHostile() {
 
 func runC15(rc *RunCtx) {
 	for h := 0; h < rc.Pick(3, 10); h++ {
-		e, err := NewHistoryEngine(rc, GenOpts{Unpaused: h%2 == 0, FixedRoles: h%3 == 0}, h%3 == 1, false)
+		e, err := NewHistoryEngine(rc, GenOpts{Unpaused: h%2 == 0, FixedRoles: h%3 == 0, MixedCasePair: true}, h%3 == 1, false)
 		if err != nil {
 			rc.Cov.Inconclusive(err.Error())
 			continue
@@ -283,6 +283,12 @@ func runC15(rc *RunCtx) {
 			}
 			e.readOnlyGuard("state-tap") // the state tap only exported and queried since the transaction
 			if i%50 == 17 {
+				// single-item queries for every stored pair (genesis may hold pairs whose local token is not lower-case)
+				e.C.Store.Reset()
+				for k := range e.M.Pairs {
+					_ = e.C.Query("TokenPair", &ct.QueryGetTokenPairRequest{RemoteDomain: k.Domain, RemoteToken: fmt.Sprintf("0x%x", k.Token)}, nil)
+				}
+				e.readOnlyGuard("query:TokenPair(stored pairs)")
 				e.allQueriesHostile()
 				e.FullQueryCheck(nil, nil)
 				e.readOnlyGuard("query:paginated-walks")
